@@ -20,8 +20,10 @@ package main
 // io.GetIntervalTicks32Bit - their correctness is the subject of C08/C10/C30); the payload, path,
 // record type, record length and schema are computed here. Real groups are compared per target
 // file after merging adjacent commands for the same (index, offset), because the property does not
-// fix how rows are grouped into commands nor the order of files inside a group. Hand-built groups
-// are compared command by command, in order.
+// fix how rows are grouped into commands nor the order of files inside a group (the writer, for
+// instance, stops merging the rows of one interval after a write has crossed into the next year's
+// file). Hand-built groups and the groups of the aim stratum (single bucket, no year crossing in a
+// variable bucket) are compared command by command, in order.
 // What is "accepted" is established by the run itself (counters accepted_*): column names of 255
 // and of 256+ bytes, 254 / 255+ further columns, key paths close to PATH_MAX, an Epoch-only schema
 // (empty payload), a payload above 1 MB, thousands of commands in one group. Hand-built commands
@@ -207,17 +209,18 @@ func (w *c28rows) expect() []c28cmd {
 // ---------------------------------------------------------------------------------------------
 
 type c28env struct {
-	c      *runner.Ctx
-	res    *runner.Result
-	inst   *ms.Inst
-	snd    *c28sender
-	walPos int64
-	bad    int
-	first  string
-	firstW interface{}
-	known  int
-	firstK string
-	sigs   map[string]bool
+	c       *runner.Ctx
+	res     *runner.Result
+	inst    *ms.Inst
+	snd     *c28sender
+	walPos  int64
+	bad     int
+	first   string
+	firstW  interface{}
+	known   int
+	firstK  string
+	firstKW interface{}
+	sigs    map[string]bool
 }
 
 func c28class(n int) string {
@@ -493,6 +496,7 @@ func (e *c28env) judge(kind string, tg []byte, want []c28cmd, exact bool, witnes
 			res.Count("schema_counter_overflows", 1)
 			if e.firstK == "" {
 				e.firstK = fmt.Sprintf("%s: command %d has a schema of %d shapes (longest name %d bytes): %s", kind, k, len(want[k].Shapes), c28longest(want[k].Shapes), d)
+				e.firstKW = witness(d)
 			}
 			return
 		}
@@ -787,7 +791,10 @@ func (e *c28env) runEdge(r *gen.R, sub int) string {
 			b := c28newBucket(r, i, func(int) int { return 0 }, 3, i%2 == 1, c28tfs[r.Intn(2)])
 			b.names[i%3] = ""
 			b.names[(i+1)%3] = []string{"価格", "объём", "📈", "é"}[i]
-			e.write("emptyname", []*c28rows{c28genRows(r, b, r.Range(1, 4))}, true)
+			if b.names[(i+2)%3] == b.names[(i+1)%3] { // keep the names distinct (AddColumn renames duplicates)
+				b.names[(i+2)%3] += "二"
+			}
+			e.write("emptyname", []*c28rows{c28genRows(r, b, r.Range(1, 4))}, false)
 		}
 		return "emptyname"
 	case 0: // names of exactly 255 bytes
@@ -799,19 +806,19 @@ func (e *c28env) runEdge(r *gen.R, sub int) string {
 				}
 				return r.PickI(0, 0, 254, 255, 128)
 			}, 3, i%2 == 1, c28tfs[0])
-			e.write("name255", []*c28rows{c28genRows(r, b, r.Range(1, 4))}, true)
+			e.write("name255", []*c28rows{c28genRows(r, b, r.Range(1, 4))}, false)
 		}
 		return "name255"
 	case 1: // 254 further columns = 255 data shapes
 		for i := 0; i < 2; i++ {
 			b := c28newBucket(r, i, func(int) int { return 0 }, 254, i%2 == 1, c28tfs[0])
-			e.write("cols254", []*c28rows{c28genRows(r, b, r.Range(1, 3))}, true)
+			e.write("cols254", []*c28rows{c28genRows(r, b, r.Range(1, 3))}, false)
 		}
 		return "cols254"
 	case 2: // Epoch-only schema: commands with an empty payload
 		for i := 0; i < 4; i++ {
 			b := c28newBucket(r, i, func(int) int { return 0 }, 0, false, c28tfs[r.Intn(len(c28tfs))])
-			e.write("emptypayload", []*c28rows{c28genRows(r, b, r.Range(1, 20))}, true)
+			e.write("emptypayload", []*c28rows{c28genRows(r, b, r.Range(1, 20))}, false)
 		}
 		return "emptypayload"
 	case 3: // one command with more than 1 MB of payload (variable bucket, all rows in one day)
@@ -826,7 +833,7 @@ func (e *c28env) runEdge(r *gen.R, sub int) string {
 			w.nanos = append(w.nanos, int32(t.Nanosecond()))
 		}
 		w.cols = []interface{}{genCol(r, 10, n)}
-		e.write("bigpayload", []*c28rows{w}, true)
+		e.write("bigpayload", []*c28rows{w}, false)
 		return "bigpayload"
 	case 4: // key path close to PATH_MAX
 		room := 4050 - len(e.inst.Root) - len("/1D/ATTR/2020.bin") - len("/category_name")
@@ -852,18 +859,18 @@ func (e *c28env) runEdge(r *gen.R, sub int) string {
 		b.item = strings.Join(items, "/") + "/1D/ATTR"
 		b.cat = strings.Join(cats, "/") + "/Timeframe/AttributeGroup"
 		b.next = c28start(r, b.tf)
-		e.write("longpath", []*c28rows{c28genRows(r, b, r.Range(2, 5))}, true)
+		e.write("longpath", []*c28rows{c28genRows(r, b, r.Range(2, 5))}, false)
 		e.res.Set("longest_key_path_bytes", strconv.Itoa(len(b.item)+len("/2020.bin")))
 		// a plain long symbol / attribute group as well
 		b2 := &c28bucket{tf: c28tfs[0], names: []string{"px"}, types: []int{9}, variable: true}
 		b2.item = c28sym(r, 255) + "/1D/" + c28sym(r, 255)
 		b2.next = c28start(r, b2.tf)
-		e.write("longpath", []*c28rows{c28genRows(r, b2, r.Range(2, 5))}, true)
+		e.write("longpath", []*c28rows{c28genRows(r, b2, r.Range(2, 5))}, false)
 		return "longpath"
 	default: // thousands of commands in one group
 		b := c28newBucket(r, 0, func(int) int { return 0 }, 2, false, c28tfs[4])
 		b.next = time.Date(2021, 3, 1, 0, 0, 0, 0, time.UTC)
-		e.write("manycommands", []*c28rows{c28genRows(r, b, 2500+r.Intn(1000))}, true)
+		e.write("manycommands", []*c28rows{c28genRows(r, b, 2500+r.Intn(1000))}, false)
 		return "manycommands"
 	}
 }
@@ -1071,7 +1078,7 @@ func c28run(c *runner.Ctx) runner.Result {
 		res.Violation(fmt.Sprintf("%d accepted writes do not decode from the WAL to what was written; first: %s", e.bad, e.first), e.firstW)
 	}
 	if e.known > 0 {
-		res.Known("F-DSVLEN", fmt.Sprintf("%d accepted writes carry a schema that does not fit the one-byte counters and do not decode to what was written; first: %s", e.known, e.firstK), nil)
+		res.Known("F-DSVLEN", fmt.Sprintf("%d accepted writes carry a schema that does not fit the one-byte counters and do not decode to what was written; first: %s", e.known, e.firstK), e.firstKW)
 	}
 	return res
 }
@@ -1087,7 +1094,7 @@ func bitLen(v int64) int {
 
 func c28cases(tier string) int {
 	if tier == "thorough" {
-		return 3000
+		return 1500
 	}
 	return 80
 }
@@ -1097,7 +1104,7 @@ func init() {
 		ID:    "C28",
 		Level: "exploration",
 		Rule: "a case opens a real instance on a scratch root with a capturing replication sender; case%10 in 0..5: 30-50 WriteCSM calls (1-4 buckets each, fixed and variable, 0-12 further columns over the 11 element types, names up to 255 bytes, 0-30 rows, year crossings, rewrites of existing buckets); 6: one accepted boundary (names of 255 bytes, an empty name, 254 further columns, Epoch-only schema = empty payload, >1 MB payload, key path near PATH_MAX, 2500+ commands in a group); 7: writes whose schema overflows a one-byte counter (names of 256/300/512/1000 bytes, 255/256/300/511 further columns), single and multi-command groups; 8..9: 20-32 groups of 1-120 hand-built commands flushed with FlushCommandsToWAL (paths 1-3900 bytes, offsets up to 2^41, 0-254 further columns, names 0-255 bytes, payloads 0 bytes-1 MB); " +
-			"every captured group is decoded by ParseTGData and by an independent decoder and looked up in the WAL file; quick 80 cases, thorough 3000; a case is non-trivial when at least one group was judged, distinct by (stratum/sub-kind, groups class, commands class, log2 of the bytes)",
+			"every captured group is decoded by ParseTGData and by an independent decoder and looked up in the WAL file; quick 80 cases, thorough 1500; a case is non-trivial when at least one group was judged, distinct by (stratum/sub-kind, groups class, commands class, log2 of the bytes)",
 		Assumptions: []string{
 			"index, offset and interval ticks of a written row are taken from io.TimeToIndex / io.IndexToOffset / io.GetIntervalTicks32Bit (properties C08, C10, C30 judge those); everything else of the original command is computed by the monitor",
 			"rows are written in non-decreasing time order, fixed-length rows in distinct intervals, never into the 1D slot of 1 January (F-JAN1 / F-PREVYEAR belong to C08)",
